@@ -176,6 +176,20 @@ theorem sortModels_respects_bases (imp : List (List Nat)) (f : Nat) (l l' : List
 example : sortModels [[66, 97]] 10 [⟨[67], [[65]]⟩, ⟨[65], [[66, 97]]⟩, ⟨[66], [[67]]⟩] =
     some [⟨[65], [[66, 97]]⟩, ⟨[67], [[65]]⟩, ⟨[66], [[67]]⟩] := by decide
 
+/-- The `while changed` loop stops (some amount of fuel suffices) when every base class of every
+model of the module is imported or a class of the module, and inheritance inside the module is
+acyclic. Both hypotheses are about names *as `__sort_models` sees them* (`type_hint` of the base vs
+`class_name` / imported names) — known finding C11-keeporder-hang is an input on which the first
+one fails for acyclic inheritance. -/
+theorem sortModels_terminates_acyclic (imp : List (List Nat)) (l : List Named)
+    (hyp : AllAvailable imp l) : ∃ f, (sortModels imp f l).isSome = true := by
+  have := swapLoop_terminates_aux imp l hyp _ [] (sortBy (fun a b => lexLe a.name b.name) l) rfl
+    (by simpa using sortBy_perm _ l) trivial
+  simpa [sortModels] using this
+
+example : AllAvailable [[66, 97]] [⟨[67], [[65]]⟩, ⟨[65], [[66, 97]]⟩, ⟨[66], [[67], [66]]⟩] :=
+  ⟨by decide, fun n => if n = [65] then 0 else if n = [67] then 1 else 2, by decide⟩
+
 /-- The swap loop of `Parser.__sort_models` has no bound of its own: on classes `A(B)`, `B(A, B)`
 it alternates between the two orders for every amount of fuel (the code loops for ever). It relies
 on `sort_data_models` having rejected cyclic inheritance before — which `cycle_hidden_by_self_base`
